@@ -6,8 +6,11 @@ Part A  render_dependencies(): every document of <= L tokens over a hostile toke
         and with two `data-djc-id-..=""` attributes -, marker comments of real components) x
         {str, bytes(utf-8), SafeString, bytes(latin-1) when the document has an 'e-acute'} x
         {document, fragment}, compared byte-exactly with a token-level reference of the statement.
+        Bounds: quick = all documents of 0..4 tokens over the 24-token alphabet (346 201 documents,
+        2.18 M calls); thorough adds all documents of 5 tokens over the 16-token alphabet in which
+        the nine preserved-text tokens are merged into one (1 394 777 documents, 9.06 M calls).
 Part B  ComponentDependencyMiddleware: all documents <= 2 tokens x content types x
-        {HttpResponse, StreamingHttpResponse} x {sync, async}.
+        {HttpResponse, StreamingHttpResponse} x {sync, async} (12 308 responses).
 
 Reference (works on the token list, never on the string): drop marker tokens; fragment: drop
 placeholders, append the JS tags; document: a kind whose placeholder occurs is inserted at every
@@ -30,7 +33,6 @@ from __future__ import annotations
 
 import asyncio
 import re
-from collections import Counter
 from itertools import product
 
 from mc import boot, par
